@@ -694,7 +694,7 @@ package orda
 
 //@ func (*jsonPrimitive).createJSONObject
 //@   mode math
-//@   props C01 C03
+//@   props C01 C03 C15
 //@   requires its.common != nil && ts != nil && allocated(ts) && value != nil
 //@   loop 0 invariant[new-object] jo != nil && jo.mapSnapshot != nil && jo.mapSnapshot.Map != nil && ts.Delimiter > old(ts.Delimiter)
 //@   loop 0 invariant[keys-ascending] sortedAsc(rangeover) && rangeindex < len(rangeover)
